@@ -123,7 +123,7 @@ impl Check for BarrierAndStatus {
         if self.mt {
             return "the machine sets of part C13 with times scaled to real time (slow initialisers 0..60 ms, shutdown requests 1..180 ms after the barrier, timeouts 1..800 ms, no Forward+ARP machines) on the tokio multi_thread runtime with 2/4/8 workers; oracle: (1) as in C13 by the logical clock (an atomic counter read by the harness protocols immediately before they wait on the barrier and by the frame hook / recorder on every frame and demux): no frame or demux before the last harness protocol reached the barrier, none at all if one never does, and none before the slowest initialiser's sleep has elapsed; (2) the returned status was requested by somebody (or TimedOut with a timeout, Exited without any request and without anybody keeping a shutdown handle) - which of several wins is left to the virtual-time part, the operating system's scheduling decides it here; (3) with a timeout the call returns within timeout + 1 s + 4 s of scheduling slack; a run that must end returns at all. non-trivial: as in C13. distinct: hash of decoded configuration".into();
         }
-        "generated: 0..6 machines on one network, each with a role built from the repository's own protocols and applications (sender = Pci+Ipv4+Udp(+Arp)+SendMessage transmitting right after the barrier; receiver = recording application (+Capture that never completes); idle PingPong pair member, Forward(+Arp), DnsServer+SocketAPI, Tcp only, bare) plus 0..3 harness applications per machine: SlowInit(d) sleeping d before the barrier, Shutter(t, status) requesting a shutdown t after the barrier, NeverReturns, NeverReachesBarrier (at most one per case); timeout none or 1 ms..1 h, shutdown times distinct from the timeout, pairwise distinct or (1/4 of the cases) several in the same instant, in 1/10 of the cases 18 requests with pairwise different statuses in one instant; oracle: (1) no frame is on any network and no application receives anything before every harness application has reached the barrier (logical clock shared by stamps and the frame hook) nor before the longest SlowInit has elapsed, and nothing at all if somebody never reaches it; (2) the returned status is that of the earliest shutdown request made before the timeout (within one instant: the request issued first, by logical stamps taken immediately before each request), else TimedOut (with a timeout) or Exited (without; only generated with machines that keep no shutdown handle or with a shutter); (3) with a timeout the call returns no later than timeout + 1 s of virtual time, and exactly at the winning shutter's time when there is one. non-trivial: >= 2 machines with a slow initialiser and a sender that transmits right after the barrier, or >= 2 competing shutdowns, or a machine that never finishes / never reaches the barrier. distinct: hash of decoded configuration".into()
+        "generated: 0..6 machines on one network, each with a role built from the repository's own protocols and applications (sender = Pci+Ipv4+Udp(+Arp)+SendMessage transmitting right after the barrier; receiver = recording application (+Capture that never completes); idle PingPong pair member, Forward(+Arp), DnsServer+SocketAPI, Tcp only, bare) plus 0..3 harness applications per machine: SlowInit(d) sleeping d before the barrier, Shutter(t, status) requesting a shutdown t after the barrier, NeverReturns, NeverReachesBarrier (at most one per case); timeout none or 1 ms..1 h, shutdown times distinct from the timeout, pairwise distinct or (1/4 of the cases) several in the same instant, in 1/10 of the cases 18 requests in one instant, with pairwise different statuses or (1/5 each) the plain shut_down(); oracle: (1) no frame is on any network and no application receives anything before every harness application has reached the barrier (logical clock shared by stamps and the frame hook) nor before the longest SlowInit has elapsed, and nothing at all if somebody never reaches it; (2) the returned status is that of the earliest shutdown request made before the timeout (within one instant: the request issued first, by logical stamps taken immediately before each request), else TimedOut (with a timeout) or Exited (without; only generated with machines that keep no shutdown handle or with a shutter); (3) with a timeout the call returns no later than timeout + 1 s of virtual time, and exactly at the winning shutter's time when there is one. non-trivial: >= 2 machines with a slow initialiser and a sender that transmits right after the barrier, or >= 2 competing shutdowns, or a machine that never finishes / never reaches the barrier. distinct: hash of decoded configuration".into()
     }
     fn assumptions(&self) -> Vec<String> {
         if self.mt {
@@ -186,7 +186,7 @@ impl Check for BarrierAndStatus {
                         // statuses are pairwise distinct so that the winner can be told apart
                         serial += 1;
                         let t = if crowd || (same_instant && e.chance(2, 3)) { crowd_t } else { fresh_time(e, if mt { 60 } else { 1000 }) * if mt && wide { 5 } else { 1 } };
-                        Behaviour::Shutter(t, if crowd || e.bool() { Some(serial * 1000 + e.choose(200) as u32) } else { None })
+                        Behaviour::Shutter(t, if (crowd && (legacy || !e.chance(1, 5))) || (!crowd && e.bool()) { Some(serial * 1000 + e.choose(200) as u32) } else { None })
                     }
                     2 => Behaviour::NeverReturns,
                     _ => {
